@@ -18,11 +18,72 @@ theorem brackets_cc : brackets (some ['[', ']']) = .ok (true, true) := rfl
 theorem brackets_letters : brackets (some ['o', 'c']) = .ok (false, true) ∧ brackets (some ['C', 'O']) = .ok (true, false) ∧
     brackets (some []) = .ok (true, false) ∧ brackets Option.none = .ok (true, false) := ⟨rfl, rfl, rfl, rfl⟩
 
-/-- anything else is rejected: a character outside `()oO[]cC`, or not exactly two characters -/
+/-- the general table: two characters `a b` parse iff each is one of `()oO` (open) / `[]cC` (closed), and the pair
+    is then (is `a` a closing-kind character, is `b` one) - all 64 accepted spellings at once -/
+theorem brackets_pair (a b : Char) (l u : Bool) :
+    brackets (some [a, b]) = .ok (l, u) ↔
+      (if l then a ∈ ['[', ']', 'c', 'C'] else a ∈ ['(', ')', 'o', 'O']) ∧
+      (if u then b ∈ ['[', ']', 'c', 'C'] else b ∈ ['(', ')', 'o', 'O']) := by
+  have hc : ∀ (c : Char) (v : Bool), closed c = .ok v ↔ (if v then c ∈ ['[', ']', 'c', 'C'] else c ∈ ['(', ')', 'o', 'O']) := by
+    intro c v
+    unfold closed
+    by_cases h1 : c ∈ ['(', ')', 'o', 'O']
+    · have h2 : c ∉ ['[', ']', 'c', 'C'] := by
+        simp only [List.mem_cons, List.not_mem_nil, or_false] at h1 ⊢
+        rcases h1 with rfl | rfl | rfl | rfl <;> decide
+      cases v <;> simp [h1, h2]
+    · by_cases h2 : c ∈ ['[', ']', 'c', 'C'] <;> cases v <;> simp [h1, h2]
+  simp only [brackets, List.isEmpty_cons, Bool.false_eq_true, if_false]
+  cases ha : closed a with
+  | error e =>
+    have h1 := hc a l
+    simp only [ha] at h1
+    simp only [bind, Except.bind]
+    constructor
+    · intro h; cases h
+    · intro h; exact absurd (h1.mpr h.1) (by simp)
+  | ok va =>
+    cases hb : closed b with
+    | error e =>
+      have h1 := hc b u
+      simp only [hb] at h1
+      simp only [bind, Except.bind]
+      constructor
+      · intro h; cases h
+      · intro h; exact absurd (h1.mpr h.2) (by simp)
+    | ok vb =>
+      simp only [bind, Except.bind, pure, Except.pure]
+      have h1 := hc a l; have h2 := hc b u
+      rw [ha] at h1; rw [hb] at h2
+      constructor
+      · intro h
+        simp only [Except.ok.injEq, Prod.mk.injEq] at h
+        exact ⟨h1.mp (by rw [h.1]), h2.mp (by rw [h.2])⟩
+      · intro h
+        have e1 := h1.mpr h.1; have e2 := h2.mpr h.2
+        simp only [Except.ok.injEq] at e1 e2
+        rw [e1, e2]
+
+/-- anything else is rejected: a character outside `()oO[]cC` (in either place), or not exactly two characters -/
 theorem brackets_reject_char (a b : Char) (h : a ∉ ['(', ')', 'o', 'O', '[', ']', 'c', 'C']) :
     brackets (some [a, b]) = .error .value := by
   simp only [List.mem_cons, List.not_mem_nil, or_false, not_or] at h
   simp [brackets, closed, h, bind, Except.bind]
+
+theorem brackets_reject_second (a b : Char) (h : b ∉ ['(', ')', 'o', 'O', '[', ']', 'c', 'C']) :
+    brackets (some [a, b]) = .error .value := by
+  simp only [List.mem_cons, List.not_mem_nil, or_false, not_or] at h
+  simp only [brackets, List.isEmpty_cons, Bool.false_eq_true, if_false]
+  have hb : closed b = .error .value := by simp [closed, h]
+  cases ha : closed a with
+  | error e =>
+    have : e = .value := by
+      unfold closed at ha
+      split at ha
+      · cases ha
+      · split at ha <;> cases ha; rfl
+    simp [bind, Except.bind, this]
+  | ok v => simp [bind, Except.bind, hb]
 
 theorem brackets_reject_length (s : List Char) (h0 : s ≠ []) (h : s.length ≠ 2) : brackets (some s) = .error .value := by
   match s, h0, h with
@@ -62,15 +123,35 @@ theorem slice_iff {α} (df r : Rows α) (lb ub : Bound) (oc : Option (List Char)
 
 theorem slice_sublist {α} (df r : Rows α) (lb ub : Bound) (oc : Option (List Char))
     (hr : sliceOne df lb ub oc = .ok r) : r.Sublist df := by
-  unfold sliceOne at hr
-  split at hr
-  · cases hr; exact List.Sublist.refl _
-  · cases hb : brackets oc with
-    | error e => simp [hb, bind, Except.bind] at hr
-    | ok lu =>
-      simp only [hb, bind, Except.bind, pure, Except.pure] at hr
-      cases hr
-      exact List.filter_sublist.trans List.filter_sublist
+  cases hb : brackets oc with
+  | ok lu =>
+    rw [sliceOne_eq df lb ub oc lu.1 lu.2 hb] at hr
+    cases hr
+    exact List.filter_sublist
+  | error e =>
+    unfold sliceOne at hr
+    split at hr
+    · cases hr; exact List.Sublist.refl _
+    · simp [hb, bind, Except.bind] at hr
+
+/-- **the fast path**: on a non-decreasing index the pandas label slice `df[lb:ub]` the code takes when both
+    applicable brackets are closed holds exactly the rows with `lb ≤ t ≤ ub` (a missing label: no test), in order -/
+theorem label_slice_spec {α} (df : Rows α) (hs : (df.map (·.1)).Pairwise (· ≤ ·)) (a b : Option Int) :
+    labelSlice df a b = df.filter fun r =>
+      (match a with | some a => decide (a ≤ r.1) | Option.none => true) &&
+      (match b with | some b => decide (r.1 ≤ b) | Option.none => true) := labelSlice_eq_filter df hs a b
+
+theorem label_slice_iff {α} (df : Rows α) (hs : (df.map (·.1)).Pairwise (· ≤ ·)) (a b : Int) (x : Int × α) :
+    x ∈ labelSlice df (some a) (some b) ↔ x ∈ df ∧ a ≤ x.1 ∧ x.1 ≤ b := by
+  rw [label_slice_spec df hs]; simp [List.mem_filter]
+
+/-- ... and on any other order it is NOT that selection (F13: the unrepaired code took the label slice on every index):
+    on the decreasing index `3, 2, 1, 0` the rows with `1 ≤ t ≤ 2` are two, the label slice `[1:2]` is empty, and
+    `sliceOne` - which asks `index.is_monotonic_increasing` first - returns the two rows -/
+theorem label_slice_needs_sorted :
+    labelSlice [((3 : Int), 'a'), (2, 'b'), (1, 'c'), (0, 'd')] (some 1) (some 2) = [] ∧
+    sliceOne [((3 : Int), 'a'), (2, 'b'), (1, 'c'), (0, 'd')] (.date 1) (.date 2) (some ['[', ']']) = .ok [(2, 'b'), (1, 'c')] :=
+  ⟨rfl, rfl⟩
 
 /-- the four bracket pairs on date bounds, in plain inequalities -/
 theorem slice_dates_iff {α} (df : Rows α) (a b : Int) (l u : Bool) (oc : Option (List Char))
